@@ -493,7 +493,31 @@ def e2e_check(workdir, cfg, parts, tier):
             ck.require('branch_%d' % r_, abs(br - scale) <= 2 * delta0 / L + (Fraction(1, 10 ** 5) if float_engine else 0),
                        'output phase %d of %d has DC gain %.12g, expected %g: a constant input would come out rippled or mis-scaled (C12)' % (r_, L, float(br), float(scale)))
     if ('pass' in parts or 'stop' in parts) and len(kept) > (MAX_TAPS_QUICK if tier == 'quick' else 1500):
-        return {'status': 'broken', 'detail': 'prototype of %d taps is above the tap limit of this tier: configuration list must be changed' % len(kept)}
+        # above the solver's tap limit nothing can be PROVED; but a concrete frequency at which the measured response breaks the bound by a wide
+        # margin (factor 4: far beyond float evaluation error) is a counterexample all the same - scan a grid before giving up
+        import cmath
+        tv = [(float(t), float(g[t])) for t in sorted(g)]
+        mag = lambda w: abs(sum(v * cmath.exp(-1j * w * t) for t, v in tv))
+        class np:      # (no numpy in the system python)
+            @staticmethod
+            def linspace(a, b, n):
+                return [a + (b - a) * k / (n - 1) for k in range(n)]
+        bad = None
+        if 'stop' in parts:
+            for w in np.linspace(ws, math.pi, 600):
+                m = mag(w)
+                if m > 4 * float(delta0):
+                    bad = 'stop-band: |H| = %.3g at w = %.6f rad/sample of the high rate (cos w = %.6f), allowed %.3g' % (m, w, math.cos(w), float(delta0)); break
+        if bad is None and 'pass' in parts:
+            rip = float(class_ripple(d['q']['flags'], bits))
+            for w in np.linspace(0, wp, 300):
+                m = mag(w)
+                if abs(m - float(G0)) > 4 * (float(G0) * rip + float(delta0)):
+                    bad = 'pass-band: |H| = %.6g at w = %.6f rad/sample of the high rate, expected %.6g within %.3g' % (m, w, float(G0), float(G0) * rip); break
+        if bad is None:
+            return {'status': 'broken', 'detail': 'prototype of %d taps is above the tap limit of this tier: configuration list must be changed' % len(kept)}
+        ck.require('band_scan', False, 'measured prototype has %d taps (above the tap limit: no proof attempted) and violates the bound at a concrete frequency - %s (numeric evaluation of the captured impulse responses) (C01/C02)' % (len(kept), bad))
+        return ck.result(workdir)
     if lin:
         slack = tail + asym
         cheb = amp_poly_symmetric(kept)
